@@ -18,9 +18,12 @@ def obligations(tier):
                     claim="crypto_aes_key_free_aesni after expanding an arbitrary 128/256-bit key: all bytes of the key object are zero at free()", bounds="none", stubs=["free -> checking stub", "x86 intrinsics -> models"]))
     obs.append(dict(name="aes-key-and-aesctr-zero-at-free", harness="wipe.c", entry="h_wipe", defs=["WHICH=2"], cpu=[], srcs=MZ, unwind=300, unwindset=U + ["libcperciva_crypto_aesctr_stream#0?:5", "crypto_aesctr_stream_cipherblock_use#0?:18"], replace=["free:checked_free"], timeout=to, replay="model",
                     claim="crypto_aesctr_free after init/stream/(init2) and crypto_aes_key_free (portable AES_KEY): all bytes zero at free()", bounds="stream call <= 40 bytes", stubs=["free -> checking stub", "OpenSSL AES -> nondeterministic"]))
-    for sc in []:   # aws_readkeys error path: not decided -- every variant of this harness ran out of memory/time (string functions over the 1024-byte line buffer); see DESIGN.md
-        obs.append(dict(name="aws-readkeys-secret-zero-at-free-scenario%d" % sc, harness="wipe.c", entry="h_wipe", defs=["WHICH=3", "SCEN=%d" % sc], cpu=[], srcs=MZ, unwind=30, unwindset=U + ["aws_readkeys#0:4"], replace=["free:checked_free"], timeout=to, replay="model",
-                        claim="aws_readkeys failing after the secret line was read (second line: unknown name, duplicate secret, no separator, missing EOL, empty name, end of file without the id, or I/O error): the heap copy of the secret is all-zero when freed", bounds="a fixed 4-character secret; 7 fixed failing continuations (one per obligation)", stubs=["fopen/fgets/ferror/fclose -> scripted symbolic file", "strdup/strcspn/strchr/strcmp/strlen: CBMC models"]))
+    # aws_readkeys: the heap copy of the secret is zeroed before release on every failure path (harness shared with C15:
+    # scripted stdio, lines of arbitrary bytes; an earlier harness over symbolic-length lines ran out of memory)
+    for l0, l1 in [(20, 16), (20, 20)] + ([(24, 5)] if tier == "thorough" else []):
+        obs.append(dict(name="aws-readkeys-secret-zero-at-free-lines-%d-%d" % (l0, l1), harness="../C15/rdkeys.c", entry="h_readkeys", defs=["L0=%d" % l0, "L1=%d" % l1, "NLINES=2"], cpu=[], srcs=MZ, unwind=44, unwindset=["insecure_memzero_func.0:50"], timeout=to, flags=["--memory-leak-check"],
+                        claim="aws_readkeys on every 2-line file with lines of %d and %d arbitrary bytes: whenever the call fails after a secret line was read (unknown name, duplicate, no separator, missing EOL, missing id, close failure), the heap copy of the secret is all-zero when it is released, exactly once; nothing leaks" % (l0, l1),
+                        bounds="2 lines of %d and %d bytes" % (l0, l1), stubs=["fopen/fgets/ferror/fclose -> scripted file", "strdup -> exact-size copy", "free -> checking wrapper", "strcspn -> C model"]))
     # Diffie-Hellman: BIGNUMs derived from the private exponent / blinding value are released with BN_clear_free (C10 model, taint bits)
     for o in _load("C10").obligations(tier):
         if o["name"].startswith("dh-modexp-") and ("ok-resultlen255" in o["name"] or "fail-at-call" in o["name"]):
